@@ -26,7 +26,7 @@ RULE = ("string level: one case = one input string of one function; exhaustive w
         "random token soups, generated/mutated/unbalanced type strings, all prefixes of the fixed-offset tags; 9 naming rules x names and 8 variant rules x variant names. "
         "Non-trivial = the input contains a non-ASCII byte or a delimiter the function searches for. "
         "project level: one case = one source tree; generated exotic items, corpus files (plain, commandified, truncated, mutated), non-Rust text, "
-        "every project stream crossed with the optional output-producing settings (verbose, visualize_deps, include_private, exclude patterns; by flag and by tauri.conf.json) and the three entry points (CLI, generate_from_config, BuildSystem), each in its own process; a multi-byte character swept over every byte offset 0..80 of type texts, names, literals and paths; recursive and mutually recursive serde type graphs (every digraph on 3 named types with rotating root sets and containers, random 4-7 node graphs, wide/deep acyclic graphs, long rings) in both modes with exit status / signal / time limit as oracle, bounded deep nesting; isolation = base project with and without unparsable (or non-UTF-8) files. distinct = distinct inputs")
+        "naming configuration (default_field_case / default_parameter_case: 8 convention names + unknown values) x hostile identifiers by tauri.conf.json, library config and BuildSystem, also at string level (default:<value> rules against the model default_case_b); project size 19..100 types/commands/events (dag, cyclic, chain; 70-field structs; one or many files) in both modes; every project stream crossed with the optional output-producing settings (verbose, visualize_deps, include_private, exclude patterns; by flag and by tauri.conf.json) and the three entry points (CLI, generate_from_config, BuildSystem), each in its own process; a multi-byte character swept over every byte offset 0..80 of type texts, names, literals and paths; recursive and mutually recursive serde type graphs (every digraph on 3 named types with rotating root sets and containers, random 4-7 node graphs, wide/deep acyclic graphs, long rings) in both modes with exit status / signal / time limit as oracle, bounded deep nesting; isolation = base project with and without unparsable (or non-UTF-8) files. distinct = distinct inputs")
 TRUSTED = [
     "python transcription of Rust's str::parse::<u64>/<f64> grammar (value of min/max only; not needed for panic-freedom)",
     "the token string handed to the attribute scanners is computed by the harness exactly as the code computes it (MetaList.tokens.to_string())",
@@ -363,6 +363,7 @@ def typegen_conf(sb, mode, st, src, out):
         "projectPath": src, "outputPath": out, "validationLibrary": mode,
         "verbose": bool(st.get("verbose")), "visualizeDeps": bool(st.get("visualize_deps")),
         "includePrivate": bool(st.get("include_private")), "excludePatterns": st.get("exclude") or [],
+        "defaultFieldCase": st.get("field_case", "snake_case"), "defaultParameterCase": st.get("param_case", "camelCase"),
         "force": True}}}, indent=1)
 
 
@@ -400,7 +401,8 @@ def run_project(args):
             if entry == "lib":
                 case = {"entry": "lib", "src_dir": sb.path("proj/src"), "out_dir": sb.path("out-lib"), "validation": mode,
                         "verbose": st.get("verbose"), "visualize_deps": st.get("visualize_deps"),
-                        "include_private": st.get("include_private"), "exclude_patterns": st.get("exclude")}
+                        "include_private": st.get("include_private"), "exclude_patterns": st.get("exclude"),
+                        "default_field_case": st.get("field_case"), "default_parameter_case": st.get("param_case")}
             else:
                 sb.write("proj/tauri.conf.json", typegen_conf(sb, mode, st, "./src", "./out-build"))
                 case = {"entry": "build", "dir": sb.path("proj")}
@@ -480,7 +482,7 @@ def project_cases(rep, rng):
         if not settings:
             key = "settings:none"
         else:
-            on = "+".join(k for k in ("verbose", "visualize_deps", "include_private") if settings.get(k))
+            on = "+".join(k for k in ("verbose", "visualize_deps", "include_private", "field_case", "param_case") if settings.get(k))
             key = "settings:%s:%s:%s" % (settings.get("via", "-"), on, "+".join(settings.get("entries", ["cli"])))
         dist[key] = dist.get(key, 0) + 1
     # generated exotic items
@@ -515,6 +517,33 @@ def project_cases(rep, rng):
     for k, ch, src_files in G.offset_sources(80 if quick else 130):
         ents = ["cli", "lib"] + (["build"] if k % 8 == 0 else [])
         add("offset-sweep", src_files, ("zod", "none")[k % 2], settings=with_entries(dict(ALL_ON, via=("flags", "conf")[(k // 2) % 2]), *ents))
+    # naming-related configuration values (every convention name + unknown values) x hostile identifiers,
+    # by tauri.conf.json (CLI, BuildSystem) and by the library configuration
+    nc = 0
+    for idents in G.HOSTILE_IDENTS:
+        src = {"lib.rs": G.naming_config_source(idents)}
+        for fc in G.CASE_VALUES:
+            pc = G.CASE_VALUES[(nc * 5 + 3) % len(G.CASE_VALUES)]
+            st = {"via": "conf", "field_case": fc, "param_case": pc, "visualize_deps": nc % 2 == 0,
+                  "entries": ["cli", "lib"] + (["build"] if nc % 4 == 0 else [])}
+            add("naming-config", src, ("none", "zod")[nc % 2], settings=st)
+            nc += 1
+    # the hostile streams above get a naming configuration too (offset sweep k = 0 starts identifiers with the character)
+    for k, ch, src_files in G.offset_sources(3):
+        for fc in ("camelCase", "PascalCase", "bogus", "SCREAMING-KEBAB-CASE"):
+            add("naming-config-offset", src_files, ("zod", "none")[k % 2],
+                settings={"via": "conf", "field_case": fc, "param_case": fc, "entries": ["cli", "lib"]})
+    # project SIZE: 19..100 types / commands / events with dependency edges in both alphabetical directions,
+    # 70-field structs and 70-variant enums, one file or many; both modes, plain and with every setting on
+    sizes = (19, 20, 21, 22, 24, 33, 40, 64, 65, 100) if quick else (8, 16, 19, 20, 21, 22, 23, 24, 32, 33, 40, 63, 64, 65, 100, 128, 257)
+    for n in sizes:
+        for rep_i in range(3 if quick else 6):
+            for shape in ("dag", "cyclic", "chain"):
+                files = G.big_project(rng, n, shape, files=(1 if rep_i % 2 == 0 else min(n, 70)))
+                mode = ("none", "zod")[(rep_i + len(shape)) % 2]
+                add("big-%d" % n, files, mode, lib=(rep_i == 0))
+                add("big-%d" % n, files, ("zod", "none")[(rep_i + len(shape)) % 2],
+                    settings=with_entries(dict(ALL_ON, via=("flags", "conf")[rep_i % 2], field_case="camelCase"), *(["cli", "lib", "build"] if rep_i == 1 else ["cli"])))
     corpus, nreg = G.corpus_files(vlib.REPO, rep.tier)
     rep.extra["corpus_files"] = len(corpus)
     rep.extra["registry_rs_files_total"] = nreg
@@ -590,6 +619,10 @@ CORPUS_SETTINGS = [
      dict(ALL_ON, via="flags", entries=["cli", "build"])),
     ("regress-visualize-mutual", {"lib.rs": G.type_graph_source(["Alpha", "Meta", "Zeta"], [(0, 1), (1, 2), (2, 0), (2, 2)], [0])}, "zod",
      dict(ALL_ON, via="conf", entries=["cli", "lib", "build"])),
+    ("regress-field-case-camel", {"lib.rs": G.naming_config_source(["\u00e9cole", "__"])}, "none",
+     {"via": "conf", "field_case": "camelCase", "param_case": "bogus", "entries": ["cli", "lib", "build"]}),
+    ("regress-field-case-unknown", {"lib.rs": G.naming_config_source(["\u00e9cole", "__"])}, "zod",
+     {"via": "conf", "field_case": "nope", "param_case": "PascalCase", "entries": ["cli", "lib"]}),
     ("regress-verbose-offset-44", G.offset_sources(80)[44 * 3][2], "none", dict(ALL_ON, via="flags", entries=["cli", "lib"])),
     ("regress-verbose-offset-43", G.offset_sources(80)[43 * 3 + 1][2], "zod", dict(ALL_ON, via="conf", entries=["cli", "lib", "build"])),
 ]
